@@ -110,7 +110,107 @@ func unknownWireTypes(c *core.Ctx, cfg model.Cfg, s, s2 reflect.Type) {
 	}
 }
 
+// c03KeyedMaps: a map whose key is a struct that the new version of the type has added fields to;
+// keys with zero fields among the others. Between the good decodes the message arrives damaged at
+// every byte position in turn (a decode can then fail inside a key, after its first field). The new
+// fields of every key are zero, the old ones what the data says (round 12: k03).
+func c03KeyedMaps(c *core.Ctx, idx int) {
+	rec := c.Rec
+	r := c.Rand(idx)
+	cfg := instCfgs()[idx%4]
+	p := instNew(cfg)
+	T := reflect.TypeOf
+	opt := []string{"", ",proto"}[r.IntN(2)]
+	k1 := structOf(sf("A", tInt, `plenc:"1"`), sf("B", tString, `plenc:"2"`))
+	k2 := structOf(sf("A", tInt, `plenc:"1"`), sf("B", tString, `plenc:"2"`), sf("C", tString, `plenc:"3"`), sf("D", T(int32(0)), `plenc:"4"`))
+	s1 := structOf(sf("M", reflect.MapOf(k1, T(int16(0))), `plenc:"1`+opt+`"`), sf("N", tInt, `plenc:"2"`))
+	s2 := structOf(sf("M", reflect.MapOf(k2, T(int16(0))), `plenc:"1`+opt+`"`), sf("N", tInt, `plenc:"2"`), sf("X", tString, `plenc:"3"`))
+	for round := 0; round < 5; round++ {
+		v := reflect.New(s1)
+		m := reflect.MakeMap(s1.Field(0).Type)
+		type kk struct {
+			a int
+			b string
+		}
+		want := map[kk]int64{}
+		for i, n := 0, 2+r.IntN(5); i < n; i++ {
+			k := kk{[]int{0, 0, 1, 5, 300}[r.IntN(5)], []string{"", "", "x", "yy", "a longer key string"}[r.IntN(5)]}
+			kv := reflect.New(k1).Elem()
+			kv.Field(0).SetInt(int64(k.a))
+			kv.Field(1).SetString(k.b)
+			val := int64(1 + r.IntN(100))
+			m.SetMapIndex(kv, reflect.ValueOf(int16(val)))
+			want[k] = val
+		}
+		v.Elem().Field(0).Set(m)
+		v.Elem().Field(1).SetInt(int64(round + 1))
+		data, err, pn := marshal(p, nil, v.Interface())
+		if err != nil || pn != "" {
+			rec.Violation("marshal-error", fmt.Sprintf("%v %s", err, pn), nil)
+			return
+		}
+		// the good decode follows EVERY rejected one directly (a later damaged copy that decodes well
+		// would tidy up after an earlier one that did not)
+		bad0 := make([]byte, len(data))
+		var got reflect.Value
+		for pos := -1; pos < len(data) && len(data) <= 300; pos++ {
+			rejected := pos < 0
+			if pos >= 0 {
+				for _, nb := range []byte{0xff, data[pos] + 1, data[pos] - 1} {
+					copy(bad0, data)
+					bad0[pos] = nb
+					if e, q := unmarshal(p, bad0, reflect.New(s2).Interface()); e != nil || q != "" {
+						rejected = true
+						rec.Count("rejected_decodes_before_keyed_maps", 1)
+					}
+				}
+			}
+			if !rejected {
+				continue
+			}
+			got = reflect.New(s2)
+			err, pn = unmarshal(p, data, got.Interface())
+			rec.Eval(1)
+			if err != nil || pn != "" {
+				break
+			}
+			gm := got.Elem().Field(0)
+			wrong := gm.Len() != len(want)
+			for it := gm.MapRange(); !wrong && it.Next(); {
+				k := it.Key()
+				w, ok := want[kk{int(k.Field(0).Int()), k.Field(1).String()}]
+				wrong = !ok || w != it.Value().Int() || k.Field(2).String() != "" || k.Field(3).Int() != 0
+			}
+			if wrong {
+				break
+			}
+		}
+		desc := fmt.Sprintf("[%s] map with a struct key that S' has added fields to\n  S  %s\n  S' %s\n  value %s\n  bytes %s", cfgName(cfg), typeString(s1), typeString(s2), model.Show(v.Elem()), hexHead(data))
+		if err != nil || pn != "" {
+			rec.Violation("evolved-decode-error", fmt.Sprintf("data of S does not decode into S': %v %s %s", err, trunc1(pn), desc), nil)
+			return
+		}
+		gm := got.Elem().Field(0)
+		bad := gm.Len() != len(want) || got.Elem().Field(1).Int() != int64(round+1) || got.Elem().Field(2).String() != ""
+		for it := gm.MapRange(); !bad && it.Next(); {
+			k := it.Key()
+			w, ok := want[kk{int(k.Field(0).Int()), k.Field(1).String()}]
+			bad = !ok || w != it.Value().Int() || k.Field(2).String() != "" || k.Field(3).Int() != 0
+		}
+		if bad {
+			rec.Violation("evolved-decode", fmt.Sprintf("decoding data of S into S' gives the wrong target (keys take their old fields from the data, their new fields are zero): got %s %s", model.Show(got.Elem()), desc), nil)
+			return
+		}
+		rec.Count("keyed_map_evolutions", 1)
+	}
+	rec.NonTrivial(core.Hash64("keyed-maps", fmt.Sprint(idx)))
+}
+
 func c03Case(c *core.Ctx, idx int) {
+	if idx%19 == 4 {
+		c03KeyedMaps(c, idx)
+		return
+	}
 	rec := c.Rec
 	var tc *tcase
 	for try := 0; ; try++ {
@@ -286,7 +386,7 @@ func init() {
 	core.Register(&core.Prop{
 		ID:        "C03",
 		Technique: "schema-evolution monitor: data of generated struct types decoded by the real Unmarshal into randomly edited types with non-zero priors, compared with a reference decoder and metamorphically with the decode into the original type",
-		Rule: "before every third decode the message is decoded into S' damaged at every byte position in turn (0xff, +1, -1), whatever that returns. every fourth message is also decoded with up to six fields appended whose indexes are those of S' plus a multiple of 2^29..2^56 (five- to nine-byte tags): unknown, to be skipped. S from the type generator; every second prior is a recycled target (slices cut short where they are), schema queries come between decodes; S' by a random edit script at every nesting depth (field, pointer target, slice element, map value): remove (p=1/4), add under a fresh index with an arbitrary type, rename (Go name and/or json tag), reorder; " +
+		Rule: "every 19th case: maps (plain and proto-tagged) whose struct key gained fields in S', keys with zero fields among them, five messages each preceded by the byte-position sweep of damaged copies. before every third decode the message is decoded into S' damaged at every byte position in turn (0xff, +1, -1), whatever that returns. every fourth message is also decoded with up to six fields appended whose indexes are those of S' plus a multiple of 2^29..2^56 (five- to nine-byte tags): unknown, to be skipped. S from the type generator; every second prior is a recycled target (slices cut short where they are), schema queries come between decodes; S' by a random edit script at every nesting depth (field, pointer target, slice element, map value): remove (p=1/4), add under a fresh index with an arbitrary type, rename (Go name and/or json tag), reorder; " +
 			"values of S boundary-biased, priors of S' zero in one third of the cases and random otherwise. Counters report which wire types occurred as unknown fields. distinct = (S, S', configuration, value-shape) hashes",
 		Assume: []string{"model.Decode implements the merge rules of the statement (validated against the real decoder by C10)"},
 		Plan: func(tier string) []core.Lane {
